@@ -34,6 +34,7 @@ func drawOpts(rt *rapid.T) gen.Opts {
 		Exotic:        rapid.IntRange(0, 3).Draw(rt, "exotic") == 0,
 		Unexported:    rapid.Bool().Draw(rt, "unexported"),
 		Methods:       rapid.Bool().Draw(rt, "methods"),
+		Custom:        rapid.IntRange(0, 3).Draw(rt, "custom") == 0,
 	}
 }
 
